@@ -110,9 +110,10 @@ type uCase struct {
 
 var urlFields = map[string]defMap{
 	"ta": {"x": {Kind: "attr", K: "string"}, "y": {Kind: "attr", K: "int", Null: true},
-		"r": {Kind: "rel", To1: true, TT: "tb"}, "rs": {Kind: "rel", To1: false, TT: "tb"}},
+		"r": {Kind: "rel", To1: true, TT: "tb"}, "rs": {Kind: "rel", To1: false, TT: "tb"}, "t": {Kind: "rel", To1: true, TT: "td"}},
 	"tb": {"z": {Kind: "attr", K: "string"}, "q": {Kind: "rel", To1: true, TT: "ta"}, "s": {Kind: "rel", To1: false, TT: "ta"}},
 	"tc": {},
+	"td": {"w": {Kind: "attr", K: "string"}, "q": {Kind: "rel", To1: true, TT: "tb"}},
 }
 
 var urlSchemas = map[string]*jsonapi.Schema{}
@@ -122,7 +123,7 @@ func urlSchema(impl string) *jsonapi.Schema {
 		return s
 	}
 	s := &jsonapi.Schema{}
-	for _, name := range []string{"ta", "tb", "tc"} {
+	for _, name := range []string{"ta", "tb", "tc", "td"} {
 		if impl == "wrap" {
 			typ, err := jsonapi.BuildType(reflect.New(structType(name, urlFields[name], kindMap{})).Interface())
 			must(err)
